@@ -20,7 +20,7 @@ Sub(S, a) == LET q == SetToSeq(S) IN SelectSeq(q, LAMBDA e : (e.val + 2 * e.name
 \* computed edit ('&name=') continued it as a bitwise operator, and a following name that begins like a dice operator ('dex') as a dice
 \* term.  The edit list says otherwise; such lists are generated and marked (an earlier version of this module left them out, which
 \* was the specification following the code).  Repaired in the repository: parentheses restore the flags for what is inside them only.
-IsParen(v) == Values[v].src \in {"(1+2)", "(2*3)"}
+IsParen(v) == Values[v].src \in {"(1+2)", "(2*3)", "(1-3)", "(0-1.5)"}
 RunsOn(es) == \E i \in 1..(Len(es) - 1) :
                 /\ IsParen(es[i].val) /\ es[i].sep \in {0, 1}
                 /\ \/ es[i + 1].kind = "a" /\ es[i + 1].form = "c"
